@@ -49,9 +49,12 @@ func main() {
 		Pkg:   "./cmd/c09",
 		Rule: "wire: a scenario is a start file plus 8-14 versions, each 1-3 random edits of the previous one (append new slots, append a new slot twice with different values, rewrite a value, duplicate an old timestamp with another value, reorder, insert a malformed row, remove rows, toggle header) and restarts (with or without an edit while down); " +
 			"targeted probes: two rows of one new slot whose scaled values are congruent mod 2^32, and a first row whose scaled value is a non-zero multiple of 2^32. store: random save/load over (timeslot, value) pairs (before origin, origin-1, origin, inside, hot cells, beyond the end, >= origin+2^30-1, 2^32-1; value 0, equal, different). " +
+			"sync: the same wire oracle for clients whose server is a harness sync server that answers with genuine signed replies (window offset below the history origin, empty or partial bitfield), so that originals and re-sends are both judged; one large scenario re-sends 500 readings while rows keep arriving. " +
+			"conc: 2-8 goroutines on one client save/load disjoint slot sets (every load has exactly one legal answer). " +
 			"Non-trivial = a version in which some slot has two usable rows with different values or a row whose value differs from the slot's first reading; a store operation on an occupied cell or outside the range; distinct by content.",
 		Assumptions: []string{
-			"the client's background sync never succeeds (its only server answers no TCP request), so every datagram at the sink comes from the report loop; retransmission through sync is C08's subject",
+			"wire scenarios: the client's background sync never succeeds (its only server answers no TCP request), so every datagram at the sink comes from the report loop",
+			"sync scenarios: readings are kept inside the signed 32-bit range, the only range in which a re-send (sign-extended 32-bit history cell) can equal the original; delivery/recovery of lost reports is C08's subject, here only identity and first-reading value of what is emitted",
 			"datagrams are judged only if they were emitted: the client sends a slot only while it is newer than the newest slot it had seen, so rewritten old rows are observed through history.dat, not on the wire",
 			"a row whose value is exactly 0 is not counted as a reading (the property itself calls value 0 indistinguishable from empty)",
 			"rows behind a CSV-level error may or may not have been read (C16 allows both): their values are admissible, not required",
@@ -65,6 +68,8 @@ func main() {
 				"wire.probe_congruent": 1, "history.checks": 50, "history.cells_checked": 100, "history.conflicting_rewrite_kept_first": 3,
 				"store.save_accepted": 100, "store.save_refused_occupied": 100, "store.save_refused_before_origin": 10, "store.save_noop_equal": 20, "store.zero_on_empty": 10,
 				"store.load": 100, "store.far_saves": 10, "store.wrap_zone_ops": 10, "store.full_checks": 5, "store.restarts": 1, "store.origin_minus_one": 1,
+				"conc.loads_on_stored": 10000, "conc.goroutines": 8, "conc.saves_accepted": 100, "conc.saves_refused_occupied": 1000,
+				"sync.rounds_ok": 8, "sync.datagrams": 500, "sync.young_scenarios": 4, "sync.young_resent_slots": 20, "sync.big_scenarios": 1, "sync.slots_sent_more_than_once": 20,
 			} {
 				c.Require(k, min)
 			}
@@ -80,7 +85,17 @@ func plan(tier string, seed int64) []run.Batch {
 	if tier == "thorough" {
 		nw, ns, nst, ops, nfar, farops = 128, 12, 32, 62500, 8, 2500
 	}
+	nsy, nyoung, ncc, rounds := 4, 5, 4, 40000
+	if tier == "thorough" {
+		nsy, nyoung, ncc, rounds = 32, 10, 16, 400000
+	}
 	var bs []run.Batch
+	for i := 0; i < nsy; i++ {
+		bs = append(bs, run.Batch{Kind: "sync", Seed: seed*1000003 + 300 + int64(i), N: nyoung + 1, TimeoutS: 110, Params: map[string]string{"n": fmt.Sprint(nyoung)}})
+	}
+	for i := 0; i < ncc; i++ {
+		bs = append(bs, run.Batch{Kind: "conc", Seed: seed*1000003 + 700 + int64(i), N: rounds, TimeoutS: 100, Params: map[string]string{"rounds": fmt.Sprint(rounds), "g": fmt.Sprint([]int{2, 8, 4, 3, 6, 2, 5, 7}[i%8])}})
+	}
 	for i := 0; i < nw; i++ {
 		bs = append(bs, run.Batch{Kind: "wire", Seed: seed*1000003 + int64(i), N: ns, TimeoutS: 110, Params: map[string]string{"n": fmt.Sprint(ns)}})
 	}
@@ -101,6 +116,10 @@ func child(b run.Batch, r *ev.Result) {
 		storeChild(b, r, false)
 	case "far":
 		storeChild(b, r, true)
+	case "sync":
+		syncChild(b, r)
+	case "conc":
+		concChild(b, r)
 	}
 }
 
@@ -152,6 +171,7 @@ type scen struct {
 	lines    []line
 	header   bool
 	nextSlot int64
+	small    bool // readings stay inside the signed 32-bit range (sync scenarios)
 	versions []string
 	slots    map[uint32]*slotInfo
 	hist     []uint32
@@ -190,6 +210,9 @@ func (s *scen) cval() string {
 	case k < 93:
 		return fmt.Sprint(24 + rng.Int63n(2000000000))
 	default:
+		if s.small {
+			return fmt.Sprint(-(24 + rng.Int63n(2000000000)))
+		}
 		return fmt.Sprint(10000000000 + rng.Int63n(1000000000000))
 	}
 }
